@@ -67,6 +67,15 @@ CHECKS["C11"] = dict(
     note=E2NOTE,
 )
 
+CHECKS["C04"] = dict(
+    engine=E2, category="model_checking", design="§3 C04",
+    technique="symbolic execution of loads + BlackbirdProgram.__call__ with symbolic parameter values (lambdify'd code runs on z3-term proxies); z3 decides instance != reference run with the values substituted",
+    text="Template skeletons (parameters in positional/keyword arguments, scalar initialisers, bare parameters at array positions, whole-array parameters, loop "
+         "bodies, functions of parameters) are loaded and instantiated by the real code with symbolic parameter values; z3 decides for all values whether the instance "
+         "differs from the reference interpreter run on the text with the values substituted; parameter set, is_template and missing-value refusal are asserted on every path.",
+    note=E2NOTE,
+)
+
 NOT_YET = "check not built yet in this round (see DESIGN.md §3 for the plan); not claimed"
 
 
